@@ -230,11 +230,15 @@ def dmdc_factors(rng, rh=None, pu=None):
     alpha = rng.choice(sorted(DMDC_SIG))
     ab = [rng.choice(DMDC_SIG[alpha]) for _ in range(rt)]
     ch = [rng.choice([0.5, 1.0, 2.0, 2.5]) for _ in range(rh)]
-    return {'rh': rh, 'rt': rt, 'pt': pt, 'pu': pu, 'q': q, 'alpha': alpha,
+    while True:
+        Qt, Qh = dyadic(rng, (pt + pu, rt), den=2), dyadic(rng, (pt, rh), den=2)
+        Qbar = np.vstack((Qh.T @ Qt[:pt, :], Qt[pt:, :]))
+        if np.all(np.any(Qbar != 0, axis=1)):       # every column of U_hat really occurs in the problem (PICOS drops
+            break                                   # variables whose coefficients all vanish)
+    return {'rh': rh, 'rt': rt, 'pt': pt, 'pu': pu, 'q': q, 'alpha': alpha, 'Qt': Qt, 'Qh': Qh,
             'St': np.diag([a for a, _ in ab]), 'Str': np.diag([b for _, b in ab]), 'Sh': np.diag(ch),
             'sig_tld': np.array([2 * a for a, _ in ab]),          # sigma / sqrt(q) = a
             'sig_hat': np.array([2 * c for c in ch]),
-            'Qt': dyadic(rng, (pt + pu, rt), den=2), 'Qh': dyadic(rng, (pt, rh), den=2),
             'Zt': dyadic(rng, (q, rt), den=2), 'Zh': dyadic(rng, (q, rh), den=2)}
 
 
